@@ -64,7 +64,7 @@ func (f *ReadChar) Call(s *slip.Scope, args slip.List, depth int) slip.Object {
 	}
 	rr, ok := is.(io.RuneReader)
 	if !ok {
-		slip.TypePanic(s, depth, "stream", args[0], "input-stream")
+		slip.TypePanic(s, depth, "stream", is, "input-stream")
 	}
 	r, _, err := rr.ReadRune()
 	if err != nil {
